@@ -34,6 +34,11 @@ def accept_any_clean(mo, definition=None):
     return E.classify(mo, definition=definition)
 
 
+def accept_clean_or_handled(mo, definition=None):
+    # also fan-out failures that the fan-out state's own Retry/Catch handles (family retry_fanout1: no siblings in flight)
+    return E.classify(mo, allow_handled=True, definition=definition)
+
+
 SPECS = {
     "C05": dict(
         families=["fanout_ok", "fanout_ok", "general", "retry"], policies=ALL_POLICIES, max_exec=2, accept=accept_no_failure, compare=True,
@@ -63,10 +68,11 @@ SPECS = {
              "the engine's per-execution dictionaries are empty at quiescence; distinct = distinct (scenario, "
              "interleaving) hashes"),
     "C09": dict(
-        families=["sequential", "fanout_ok", "general", "retry", "fanout_fail"], policies=ALL_POLICIES, max_exec=2,
-        accept=accept_any_clean, compare=False, types=("STANDARD", "STANDARD", "EXPRESS"),
+        families=["sequential", "fanout_ok", "general", "retry", "fanout_fail", "retry_fanout1"], policies=ALL_POLICIES, max_exec=2,
+        accept=accept_clean_or_handled, compare=False, types=("STANDARD", "STANDARD", "EXPRESS"),
         monitors=lambda models: [HistoryMonitor(models)], relabel=("C09",), n_quick=2500, n_thorough=120000,
-        rule="executions generated for C01/C05/C06/C07 (all state types, success and failure paths, retries, fan-out) "
+        rule="executions generated for C01/C05/C06/C07 (all state types, success and failure paths, retries, fan-out, Map/Parallel "
+             "states retried or caught as a whole with batches and waiting siblings; some machines with a loggingConfiguration) "
              "under seeded schedule policies; after every scheduler step the newly appended history events are "
              "validated (ids 1..n, previousEventId, non-decreasing timestamps, ExecutionStarted first with the input, "
              "nothing after the terminal event); at the end the terminal event must agree with the record, "
@@ -217,6 +223,8 @@ def run_one(item, extra):
             return run_perm(prop, item[1])
         if kind == "loop":
             return run_loop(prop, item[1])
+        if kind == "hand":
+            return run_hand(prop, item[1])
         if kind == "nested":
             from gen import corpus
             cfg = E.policy_cfg(item[2])
@@ -319,6 +327,23 @@ def run_loop(prop, i):
     return check(prop, scn, seed, extra_probes={"fan-out-re-entered-in-a-loop": 1})
 
 
+def run_hand(prop, i):
+    """C07's hand-shaped fan-out error-handling families (a Map with MaxConcurrency batches retried/caught as a whole, a
+    Parallel whose failing branch has waiting siblings) under this property's monitors and any schedule policy."""
+    from checks import c07
+    seed = common.run_seed(8500000 + i)
+    rng = random.Random(seed)
+    fam = rng.choice(sorted(c07.HAND))
+    prog = c07.HAND[fam](rng)
+    cfg = E.swarm_config(rng, ALL_POLICIES + ["canonical"] * 5, ttls=(600, 3600))
+    scn = E.scenario_of(prog, cfg, 1, rng.choice(["STANDARD", "STANDARD", "EXPRESS"]))
+    scn["machines"]["m"]["family"] = fam
+    mo = E.model_for(scn)
+    if E.flags_block(mo) or mo.unsupported:
+        return {"evaluations": 1, "probes": {"skipped:hand": 1}, "findings": [], "distinct": []}
+    return check(prop, scn, seed, {"e1": mo}, extra_probes={"hand-shaped:" + fam: 1})
+
+
 def run_perm(prop, p):
     scn = perm_scenario(p)
     r = check(prop, scn, 7, extra_probes={"permutation-slice": 1})
@@ -342,6 +367,8 @@ def main_for(prop, argv, extra_items=()):
         items = [("nested", nm, pol, 100 + k) for nm in sorted(corpus.NESTED) for pol in ALL_POLICIES
                  for k in range(reps)] + items
     extra_cov = {}
+    if prop == "C09":
+        items = [("hand", j) for j in range(300 if tier == "quick" else 12000)] + items
     if prop == "C05":
         pi = perm_items(4)
         items = pi + [("loop", j) for j in range(200 if tier == "quick" else 8000)] + items
